@@ -662,6 +662,9 @@ func (x *Exec) run() {
 		cfg.StateFlushFrequency = 1
 	}
 	s := cfg.New()
+	if x.perturb.model != nil {
+		x.perturb.model.bind(scheduler.VerifKey(s))
+	}
 	if sc.CancelKind == CancelBeforeFirst {
 		x.doCancel()
 	}
